@@ -62,6 +62,7 @@ type Obl struct {
 	FuncKey   string
 	FactIdx   int          // index of the fact that assumes this obligation for what follows (-1: none)
 	Support   bool         // not part of the property's selection; later selected obligations assume it, so it is solved too
+	LemmaStep bool         // from an "at ... lemma" clause: a proof step, never reported itself
 	Excl      map[int]bool // facts to leave out of the query (failed supporting obligations)
 	DependsOn string       // set when the obligation only fails without a failed supporting obligation's fact
 	// filled by solver
